@@ -241,9 +241,28 @@ if not CHILD:
     Scalar("Tk", schema_name="stk_a")(Scalar("Tk", schema_name="stk_b")(TkState))
     STACKED[1] = build(sdl_of(1), "stk_a", query_cache_decorator=DictCache())
     STACKED[2] = build(sdl_of(2), "stk_b", query_cache_decorator=DictCache())
+# a cook that FAILS for one schema name (an application that survives it, e.g. one tenant's schema is broken): the other names' registrations are intact
+SURV = {}
+BROKEN = {"failed": False}
+if not CHILD:
+    register(1, "surv_a"); register(2, "surv_b")
+
+    @Resolver("Query.doesNotExist", schema_name="broken_x")
+    async def _nowhere(parent, args, ctx, info):
+        return None
+    try:
+        build("type Query { a: Int }", "broken_x")
+    except Exception:
+        BROKEN["failed"] = True
+    SURV[1] = build(sdl_of(1), "surv_a", query_cache_decorator=DictCache())
+    try:
+        build("type Query { a: Undefined }", "broken_y")
+    except Exception:
+        pass
+    SURV[2] = build(sdl_of(2), "surv_b", query_cache_decorator=DictCache())
 TK_Q = "{ tk }"
 FIRST_TK = {}
-for _key, _e in [(("alone", k), e) for k, e in ALONE.items()] + [(("co",) + k, e) for k, e in ENG.items()] + [(("stacked", k), e) for k, e in STACKED.items()]:
+for _key, _e in [(("alone", k), e) for k, e in ALONE.items()] + [(("co",) + k, e) for k, e in ENG.items()] + [(("stacked", k), e) for k, e in STACKED.items()] + [(("survivor", k), e) for k, e in SURV.items()]:
     FIRST_TK[_key] = env.run(_e.execute(TK_Q))          # the very first serialisation of the token "k" by this engine
     probe(_e, 1)
 
@@ -343,3 +362,21 @@ def c17_scalar_state(i: int) -> bool:
         if not ok or r != {"data": {"tk": "seen"}}:
             return verdict(False)
     return verdict(len(FIRST_TK) > 0)
+
+
+
+@obligation(tier="quick", timeout=120, samples=[{"i": 0, "x": 3}, {"i": 1, "x": None}],
+            symbolic=["x: Optional[int] — variable of the echo request"], selectors=["i: which surviving bundle"],
+            bounds="2 bundles registered before, cooked after, another schema name's cook failed (a resolver for an unknown field; an undefined field type)",
+            note="a failed cook of ONE schema name leaves the other names alone: a bundle registered before the failure and cooked after it behaves exactly like the bundle built alone")
+def c17_after_failed_cook(i: int, x: Optional[int]) -> bool:
+    """
+    post: _
+    """
+    i = 1 + pick(i, 2)
+    if x is not None and not (-10 ** 6 < x < 10 ** 6):
+        return True
+    ok, got = safe(lambda: probe(SURV[i], x))
+    ref = oracle(i, x)
+    observe(i, got, ref, BROKEN["failed"])
+    return verdict(ok and BROKEN["failed"] and got == ref)
